@@ -135,10 +135,33 @@ func Reachable(p *model.Project) map[string]bool {
 
 // mandatoryLinks lists, for an object node, the groups of alternative targets of every mandatory,
 // non-nullable, non-array property (one group per property: one name = plain link, several = choice).
-func mandatoryLinks(n *model.Node) [][]string {
+func mandatoryLinks(p *model.Project, n *model.Node, inheriting map[*model.Node]bool) [][]string {
 	var out [][]string
 	if n == nil || n.Kind != "object" {
 		return out
+	}
+	// an object that inherits (allOf) has the properties of its parents as its own
+	if inheriting == nil {
+		inheriting = map[*model.Node]bool{}
+	}
+	if !inheriting[n] {
+		inheriting[n] = true
+		for _, r := range n.Rules {
+			if r.Name != "allOf" {
+				continue
+			}
+			bases := []string{r.Val.Str}
+			if r.Val.K == "list" {
+				bases = nil
+				for _, it := range r.Val.Items {
+					bases = append(bases, it.Str)
+				}
+			}
+			for _, b := range bases {
+				out = append(out, mandatoryLinks(p, typeNode(p, b), inheriting)...)
+			}
+		}
+		delete(inheriting, n)
 	}
 	for i, k := range n.Kids {
 		if n.Keys[i].Shortcut {
@@ -147,7 +170,7 @@ func mandatoryLinks(n *model.Node) [][]string {
 		if k.Kind != "ref" && k.Kind != "choice" {
 			// nested plain objects: their mandatory links are mandatory for the parent too
 			if k.Kind == "object" && !optionalOrNullable(k) {
-				out = append(out, mandatoryLinks(k)...)
+				out = append(out, mandatoryLinks(p, k, inheriting)...)
 			}
 			continue
 		}
@@ -205,7 +228,7 @@ func Finite(p *model.Project) map[string]bool {
 					}
 				}
 			} else {
-				for _, group := range mandatoryLinks(node) {
+				for _, group := range mandatoryLinks(p, node, nil) {
 					any := false
 					for _, tg := range group {
 						if fin[tg] {
@@ -246,7 +269,7 @@ func SelfRequired(p *model.Project) (bool, int) {
 		if node != nil && node.Kind == "ref" {
 			groups = [][]string{node.Refs}
 		} else {
-			groups = mandatoryLinks(node)
+			groups = mandatoryLinks(p, node, nil)
 		}
 		for _, g := range groups {
 			if len(g) != 1 {
